@@ -558,5 +558,24 @@ theorem binary_nondecreasing (α : Assign) {s n m : Nat} (hs : 1 ≤ s) :
       (lt_pow_clog2 (by omega : v₁ < m))).2
       (hh i j hp'.1 hp'.2.1 (by omega) v₁ v₂ hq'.2.1 hq'.2.2)
 
+/-! ### the three readings of a constraint list: arithmetic, clauses (CNF class), PB (OPB class) -/
+
+/-- `cons` constrains to exactly `P`: in its arithmetic meaning, as the clauses the CNF class
+stores, and as the pseudo-Boolean constraints the OPB class stores -/
+def Means (α : Assign) (cons : List Con) (P : Prop) : Prop :=
+  (allHold α cons ↔ P) ∧
+  ((∀ cl ∈ cons.flatMap Con.toCNF, clauseHolds α cl = true) ↔ P) ∧
+  ((∀ p ∈ cons.flatMap Con.toOPB, p.holds α = true) ↔ P)
+
+theorem means_of {α : Assign} {cons : List Con} {P : Prop} {s N : Nat} (hs : 1 ≤ s)
+    (hl : ∀ c ∈ cons, ∀ l ∈ c.lits, s ≤ l.natAbs ∧ l.natAbs < s + N) (h : allHold α cons ↔ P) :
+    Means α cons P := by
+  have hnz : ∀ c ∈ cons, ∀ l ∈ c.lits, l ≠ 0 := by
+    intro c hc l hlm h0
+    have := (hl c hc l hlm).1
+    subst h0
+    simp at this; omega
+  exact ⟨h, (allHold_toCNF α cons hnz).trans h, (allHold_toOPB α cons hnz).trans h⟩
+
 end Vars
 end Cnfgen
